@@ -303,7 +303,7 @@ def stepCaller (s : State) (t : Nat) (c : Nat) (e : Ev) : Option State :=
     | .data d =>
       (match s.chan with
        | d' :: rest =>
-         if d = d' then
+         if d = d' ∧ mayRetry k s.cfg.slack = true then
            let buf := s.rxbuf ++ d
            match complete s.cfg (current k) buf with
            | some (l, r) => some ({ s with chan := rest, rxbuf := r }.setC c { k with pc := .relI, replies := k.replies ++ [l] })
@@ -315,7 +315,8 @@ def stepCaller (s : State) (t : Nat) (c : Nat) (e : Ev) : Option State :=
          ∧ mayRetry k s.cfg.slack = true then
         some (s.setC c { k with lastT := t, emptyAt := some t })
       else none
-    | .closed => if s.chan = [] ∧ s.eof = true then some (s.setC c { k with pc := .closing }) else none
+    | .closed =>
+      if s.chan = [] ∧ s.eof = true ∧ mayRetry k s.cfg.slack = true then some (s.setC c { k with pc := .closing }) else none
   | .read, .rel _ =>       -- TimeoutError leaves the inner `with`
     match k.emptyAt with
     | some te =>
